@@ -929,7 +929,7 @@ bool HSolver::runSolver(bool verbose)
     if (!WriteResults(L))
     {
        WarnMessage("couldn't write results to disk\n");
-       return 6;
+       return false;
     }
     if (verbose)
         PrintMessage("results written to disk\n");
